@@ -15,7 +15,7 @@ import subprocess
 
 from . import kanirun
 
-ROOT = '/verif'
+ROOT = os.environ.get('VERIF_ROOT') or '/verif'
 
 
 def _kani_env():
